@@ -341,7 +341,9 @@ def judge (_id : String) (lines : Array String) : Verdict := Id.run do
   let some k := flapConsts? | return .badop "flapping constants were not extracted from alert.go (Kap.Gen.C01)"
   if Gen.flapStartOffset.isNone then return .badop "the loop of percentChange was not recognised (Kap.Gen.C01)"
   if effHistory none < 2 then return .badop "history default / clamp were not extracted (Kap.Gen.C01)"
-  let mut d : DS := {}
+  -- a case without cfg / cfgb line runs with the harness defaults (lv=111, nothing else): same defaults here
+  let dflt : Conf := (parseCfg []).getD {}
+  let mut d : DS := { conf := dflt, confB := dflt }
   -- a model/implementation difference is reported only after the spec has been evaluated on EVERY observation line
   let mut pend : Option Verdict := none
   for l in lines do
